@@ -1576,6 +1576,8 @@ def shallow_parse_input_query(query_text, input_iterator, tables_registry, query
             # We need to add string literals back in order to have relevant errors in case of exceptions during parsing
             combined_select_expression_for_ast = combine_string_literals(select_expression_for_ast, string_literals)
             column_infos = ast_parse_select_expression_to_column_infos(combined_select_expression_for_ast)
+            if 'distinct_count' in rb_actions[SELECT]:
+                column_infos = [None] + column_infos # DISTINCT COUNT prepends the counter column to every output record
             output_header = select_output_header(input_header, join_header, column_infos)
         query_context.select_expression = select_expression
         query_context.writer.set_header(output_header)
